@@ -40,6 +40,10 @@ def shards(tier, seed):
             nodes = keep
         for i in range(0, len(nodes), 4):
             out.append(dict(version=v, nodes=nodes[i:i + 4], full=(tier == "thorough")))
+        if v in ("8.3.0", "score_1.1.0"):
+            # the same under a namespace prefix
+            for i in range(0, len(nodes), 8):
+                out.append(dict(version=v, ns="sc:", nodes=nodes[i:i + 2], full=(tier == "thorough")))
     return out
 
 
@@ -64,12 +68,14 @@ def check_case(case, rec):
     from hed.errors.error_types import ErrorSeverity
     v = case["schema"]
     o = schema_xml.load(v)
-    schema = env.schema(v)
+    ns = case.get("ns", "")
+    schema = env.schema(ns + v)
     node = o.by_path[case["node"].casefold()]
+    nm = ns + node.name                          # the tag as written, with the schema's prefix if it has one
     plain = o.is_plain(node) and not (schema_xml.SPECIAL_NODE_ATTRS & set(node.hash_child.attrs))
     table = units.table_for(o, node)
     kind, num, unit = case["kind"], case["num"], case.get("unit")
-    text = f"{node.name}/{num}" if kind == "bare" else make_text(node.name, num, unit, case.get("prefix", False))
+    text = f"{nm}/{num}" if kind == "bare" else make_text(nm, num, unit, case.get("prefix", False))
     try:
         issues = HedString(text, schema).validate()
     except Exception as ex:  # noqa
@@ -113,7 +119,7 @@ def check_case(case, rec):
                 x2 = repr(float(num) * 2)
                 if "e" in x2 or "inf" in x2 or "nan" in x2:
                     return
-                t2 = HedTag(make_text(node.name, x2, unit, case.get("prefix", False)), schema)
+                t2 = HedTag(make_text(nm, x2, unit, case.get("prefix", False)), schema)
                 try:
                     g2 = t2.value_as_default_unit()
                 except Exception as ex:  # noqa
@@ -180,22 +186,22 @@ def run_shard(shard, rec):
             for sp in _spellings(rng, d, full):
                 nums = numerals if full else [rng.choice(NUMERALS_Q)] + numerals[:1]
                 for num in nums:
-                    case = dict(schema=v, node=path, kind="accepted", num=num, unit=sp, prefix=d["prefix"])
-                    rec.case((v, path, num, sp))
+                    case = dict(schema=v, ns=shard.get("ns", ""), node=path, kind="accepted", num=num, unit=sp, prefix=d["prefix"])
+                    rec.case((shard.get("ns", "") + v, path, num, sp))
                     check_case(case, rec)
                     rec.count("unit-class", d["cls"])
                     rec.count("modifier", d["mod"] or "-")
                     if rng.random() < 0.0008:
                         rec.sample(case)
         for c in rejected_candidates(rng, table):
-            case = dict(schema=v, node=path, kind="rejected", num=rng.choice(numerals), unit=c)
-            rec.case((v, path, case["num"], c))
+            case = dict(schema=v, ns=shard.get("ns", ""), node=path, kind="rejected", num=rng.choice(numerals), unit=c)
+            rec.case((shard.get("ns", "") + v, path, case["num"], c))
             check_case(case, rec)
             if rng.random() < 0.002:
                 rec.sample(case)
         for num in numerals:
-            case = dict(schema=v, node=path, kind="bare", num=num)
-            rec.case((v, path, num), nontrivial=False)
+            case = dict(schema=v, ns=shard.get("ns", ""), node=path, kind="bare", num=num)
+            rec.case((shard.get("ns", "") + v, path, num), nontrivial=False)
             check_case(case, rec)
     rec.count("schema", v, len(shard["nodes"]))
 
